@@ -2,6 +2,7 @@ import Parmcb.Model.Forest
 import Parmcb.Model.Fvs
 import Parmcb.Model.DePina
 import Parmcb.Model.Signed
+import Parmcb.Model.BiDijkstra
 import Parmcb.Model.Spanner
 import Parmcb.Model.Lex
 import Parmcb.Model.Iso
@@ -189,7 +190,16 @@ def validateSearches (id : String) (gI : Graph) (sups : List (List Nat)) (evs : 
     for e in es do
       let (a, b) := if e.hiddenBranch then (sgNode gI.n (gI.src e.source) true, sgNode gI.n (gI.tgt e.source) true)
                     else (sgNode gI.n e.source true, sgNode gI.n e.source false)
-      let d := (sgDijkstra (sgAdjHidden gI (if e.emptySigned then [] else S) e.hidden) a)[b]!
+      let adjH := sgAdjHidden gI (if e.emptySigned then [] else S) e.hidden
+      let d := (sgDijkstra adjH a)[b]!
+      -- the literal model of bidirectional_signed_dijkstra (two different heaps) must compute the same value
+      -- (`biDijkstra_correct` proves it for every heap; this executes it on the implementation's own searches)
+      let expct : Option Int := match d, e.limit with
+        | some dist, some l => if dist < l then some dist else none
+        | some dist, none => some dist
+        | none, _ => none
+      if a != b && (biDijkstra adjH pickHead e.limit a b != expct || biDijkstra adjH pickLast e.limit a b != expct) then
+        return some s!"diff {id} phase {k} search-from {e.source} model-self-check: literal bidirectional model disagrees with the signed-graph distance"
       match e.found, d with
       | some w, some dist =>
         if w != dist then return some s!"diff {id} phase {k} search-from {e.source} returns {w}, signed-graph distance {dist}"
